@@ -90,6 +90,7 @@ func batchCmd(args []string) {
 			panic(err)
 		}
 		c, m = in.Case, in.Meta
+		relocatePackage(c, *work)
 		// a fixed case can still be run under the profiles (sort on / off, separate package)
 		var opt gen.Options
 		if err := json.Unmarshal([]byte(*profile), &opt); err != nil {
@@ -102,10 +103,13 @@ func batchCmd(args []string) {
 			case 2:
 				c.Yaml.Sort = false
 			}
-			if opt.SeparatePackage == "auto" {
+			if opt.SeparatePackage == "auto" || opt.SeparatePackage == "override" {
 				rel, _ := filepath.Rel(pipe.HarnessRoot, *work)
 				c.Yaml.DefaultPackageName = "verifharness/" + filepath.ToSlash(rel) + "/spkg"
 				c.Yaml.TargetPackageName = "tgt"
+				if opt.SeparatePackage == "override" {
+					overridePackage(c)
+				}
 			}
 		}
 		if m.OneofGroups == nil {
@@ -117,12 +121,16 @@ func batchCmd(args []string) {
 			panic(err)
 		}
 		r := driver.NewRng(*seed*1000003 + uint64(*index)*65537 + 17)
-		if opt.SeparatePackage == "auto" {
+		override := opt.SeparatePackage == "override"
+		if opt.SeparatePackage == "auto" || override {
 			rel, _ := filepath.Rel(pipe.HarnessRoot, *work)
 			opt.SeparatePackage = "verifharness/" + filepath.ToSlash(rel) + "/spkg"
 			opt.TargetPackage = "tgt"
 		}
 		c, m = gen.GenCase(r, opt)
+		if override && c.Yaml != nil {
+			overridePackage(c)
+		}
 	}
 	b, err := pipe.NewBatch(*work, c, m)
 	if err != nil {
@@ -254,4 +262,37 @@ func rootsOf(c *desc.Case) []string {
 		}
 	}
 	return out
+}
+
+// overridePackage names the struct package by its short name only and supplies the import path through
+// import_path_overrides (README "import_path_overrides"; property C13 "honouring import_path_overrides").
+func overridePackage(c *desc.Case) {
+	full := c.Yaml.DefaultPackageName
+	c.Yaml.DefaultPackageName = "spkg"
+	c.Yaml.ImportPathOverrides = append(c.Yaml.ImportPathOverrides, desc.KV{K: "spkg", V: full})
+}
+
+// relocatePackage rewrites the struct-package import path of a recorded case (verifharness/<old batch dir>/spkg) to the
+// directory the case is run in now, so that a replayed or shrunk separate-package case compiles where it is run.
+func relocatePackage(c *desc.Case, work string) {
+	rel, err := filepath.Rel(pipe.HarnessRoot, work)
+	if err != nil {
+		return
+	}
+	now := "verifharness/" + filepath.ToSlash(rel) + "/spkg"
+	fix := func(v string) string {
+		if strings.HasPrefix(v, "verifharness/") && strings.HasSuffix(v, "/spkg") {
+			return now
+		}
+		return v
+	}
+	if c.Yaml != nil {
+		c.Yaml.DefaultPackageName = fix(c.Yaml.DefaultPackageName)
+		for i := range c.Yaml.ImportPathOverrides {
+			c.Yaml.ImportPathOverrides[i].V = fix(c.Yaml.ImportPathOverrides[i].V)
+		}
+	}
+	for i := range c.Cli {
+		c.Cli[i].V = fix(c.Cli[i].V)
+	}
 }
